@@ -127,6 +127,13 @@ def instrument_layouts(repo: Repo):
     le = _len_eval(repo, samp, wfn)
     ws = layout.writer_slots(repo, samp, wfn, W, lambda e: le.of(e))
     rs = layout.reader_slots(repo, samp, rfn, R)
+    # a raw field whose length came out as a proper interval: look for two concrete sizes (a witness that it really varies)
+    for s_ in ws:
+        if s_.kind == "raw" and s_.width is None and s_.width_iv is not None and s_.width_iv[0] != s_.width_iv[1] and isinstance(s_.node, ast.Call) and s_.node.args:
+            try:
+                s_.witness = layout.length_witness(le, s_.node.args[0])
+            except Exception:
+                s_.witness = None
     return samp, wfn, rfn, ws, rs
 
 
@@ -149,7 +156,13 @@ def instrument_record(repo: Repo, rep, P: str, tables):
         ok = True
         if w.width is None:
             iv = w.width_iv
-            rep.inconclusive(f"{P}.R1", wcon, text, f"writer width of slot {i} not a single value ({iv})", where)
+            wit = getattr(w, "witness", None)
+            if wit is not None:
+                rep.violation(f"{P}.R1", wcon, text,
+                              f"field `{name}` has no fixed width: with {wit[1]} element(s) in {wit[0]} it is {wit[2]} byte(s), with {wit[3]} it is "
+                              f"{wit[4]} — every later field of the fixed-layout record moves", where)
+            else:
+                rep.inconclusive(f"{P}.R1", wcon, text, f"writer width of slot {i} not a single value ({iv})", where)
             continue
         if r.width is None:
             rep.inconclusive(f"{P}.R1", rcon, text, f"reader width of slot {i} unknown", f"{rel}:{r.node.lineno}")
@@ -225,7 +238,13 @@ def record_sizes(repo: Repo, rep, P: str, rule: str, tables):
     wcon = f"{rel}:Sampler.global_config_chunks"
     tw, tr = _total(ws), _total(rs)
     tc = sum(s.comment[2] for s in ws if s.comment) if all(s.comment for s in ws) else None
-    if tw is None or tr is None:
+    wits = [(s.comment[1] if s.comment else "?", s.witness) for s in ws if s.width is None and getattr(s, "witness", None) is not None]
+    if wits:
+        nm_, wit = wits[0]
+        rep.violation(f"{P}.{rule}", wcon, f"`{nm_}`: {wit[2]} byte(s) with {wit[1]} element(s) in {wit[0]}, {wit[4]} with {wit[3]}",
+                      "a field of the fixed-layout instrument record has no fixed width: the record is not the documented 400 bytes and every "
+                      "later documented offset moves", f"{rel}:{wfn.lineno}")
+    elif tw is None or tr is None:
         widths = [(s.comment[1] if s.comment else "?", s.width_iv) for s in ws if s.width is None]
         rep.inconclusive(f"{P}.{rule}", wcon, str(widths), "record size not a single value", f"{rel}:{wfn.lineno}")
     else:
